@@ -5,6 +5,7 @@ package main
 import (
 	"fmt"
 	"os"
+	"path/filepath"
 	"runtime/debug"
 	"go/constant"
 	"go/token"
@@ -45,6 +46,7 @@ type Obligation struct {
 	Inputs  []InputSym
 	Result  *SolveResult
 	Cover   bool // satisfiability expected (vacuity check)
+	pruneQuery bool // synchronous feasibility query of `prune`: first definite answer wins
 	Bounded int
 	VCID    int
 	vc      *VC
@@ -67,6 +69,8 @@ type VC struct {
 	counters map[string]int
 	heapSort map[string]string // heap name -> sort
 	wrapping bool
+	prune    bool
+	nPruned  int
 	inputs   []InputSym
 	failed   error
 	loopOrd  int
@@ -446,6 +450,21 @@ func (vc *VC) cover(s *State, kind string, cond string, pos token.Pos, desc stri
 		vc:     vc,
 	}
 	vc.obls = append(vc.obls, o)
+}
+
+// infeasible asks the solvers (2 s) whether the path condition of s is refutable; only a definite `unsat` prunes.
+func (vc *VC) infeasible(s *State) bool {
+	if s == nil || s.g == "false" {
+		return true
+	}
+	o := &Obligation{Name: fmt.Sprintf("%s#prune%d", vc.fn, vc.nPruned), Kind: "prune", Func: vc.fn, Guard: s.g, Goal: "true", NFacts: len(vc.facts), Cover: true, VCID: vc.id, vc: vc}
+	vc.nPruned++
+	dir := filepath.Join(os.TempDir(), fmt.Sprintf("govc-prune-%d", os.Getpid()))
+	os.MkdirAll(dir, 0o755)
+	defer os.RemoveAll(dir)
+	o.pruneQuery = true
+	r := solveObligation(o, dir, 2, false)
+	return r != nil && r.Status == "unsat"
 }
 
 // query builds the SMT-LIB text for an obligation.
